@@ -10,6 +10,7 @@ mod json_sim;
 mod log_sim;
 mod driver;
 mod fw;
+mod fwrap;
 mod rec;
 mod reclayer;
 mod registry_sim;
